@@ -216,3 +216,99 @@ def explore(repo: Repo, tier: str):
                 c, m = found.get(key_, (0, msg))
                 found[key_] = (c + 1, m if len(m) <= len(msg) else msg)
     return found, n
+
+
+# ------------------------------------------------------------------------------------------------------------------------
+# history worlds (C13): what is answered for a pickle does not depend on what the process did before
+# ------------------------------------------------------------------------------------------------------------------------
+def _history_inputs():
+    import collections
+
+    return _bases() + [
+        ("protocol-0 booleans and a float", b"(I01\nI00\nG?\xf0\x00\x00\x00\x00\x00\x00t."),
+        ("floats 1.0 and 0.0 (protocol 2)", pickle.dumps([1.0, 0.0, -0.0], 2)),
+        ("a non-standard-library call", b"cnot_stdlib_module\nThing\n(S'a'\ntR."),
+        ("a dict with shared keys (protocol 4)", pickle.dumps({"a": ("x", "x"), "b": ("x",)}, 4)),
+    ]
+
+
+def history_world(repo: Repo, a, b, mode: str) -> List[Tuple[str, str]]:
+    from .props.c06 import _fresh_objeval
+
+    pk = repo.cls(f"{F}.Pickled")
+
+    def fresh_oe():
+        oe = _fresh_objeval(repo)
+        oe.externals["stdlib_list.in_stdlib"] = V._StdlibOracle()
+        return oe
+
+    oe1 = fresh_oe()
+    alone = _views(repo, oe1, oe1.ref(pk).sa_attr("load")(a[1]))
+    oe2 = fresh_oe()
+    Pb = oe2.ref(pk).sa_attr("load")(b[1])
+    if mode == "after-full-analysis":
+        _views(repo, oe2, Pb)
+    elif mode == "after-abandoned-decompilation":
+        it = oe2.ref(repo.cls(f"{F}.Interpreter"))(Pb)
+        try:
+            for _ in range(3):
+                it.sa_attr("step")()
+        except PyRaise:
+            pass
+    else:  # twice the same bytes, two objects
+        _views(repo, oe2, oe2.ref(pk).sa_attr("load")(a[1]))
+    after = _views(repo, oe2, oe2.ref(pk).sa_attr("load")(a[1]))
+    devs = []
+    for name in ("program", "summaries", "verdict", "bytes"):
+        if alone[name] != after[name]:
+            devs.append((f"history-dependent-{name}:{mode}", f"the {name} of {a[0]} is {str(after[name])[:100]} when {('the same bytes were analysed before' if mode == 'same-bytes-twice' else b[0] + ' was ' + ('analysed' if mode == 'after-full-analysis' else 'half decompiled and abandoned') + ' before')} in the process, and {str(alone[name])[:100]} in a fresh process"))
+    return devs
+
+
+def _hchunk(items):
+    out = []
+    for a, b, mode in items:
+        try:
+            out.append(("ok", history_world(_EREPO, a, b, mode)))
+        except Unsupported as e:
+            out.append(("unsupported", f"{a[0]} after {b[0]} ({mode}): {e}"))
+        except AnalysisError as e:
+            out.append(("unsupported", f"{a[0]} after {b[0]} ({mode}): {e}"))
+    return out
+
+
+def explore_history(repo: Repo, tier: str):
+    import multiprocessing as mp
+    import os
+    from concurrent.futures import ProcessPoolExecutor
+    from pathlib import Path
+
+    from .cache import cached, digest
+
+    global _EREPO
+    _EREPO = repo
+    ins = _history_inputs()
+    items = [(a, b, m) for a in ins for b in ins for m in ("after-full-analysis", "after-abandoned-decompilation") if a is not b] + [(a, a, "same-bytes-twice") for a in ins]
+    jobs = min(int(os.environ.get("SA_JOBS", "16")), os.cpu_count() or 1)
+    chunks = [items[i::jobs] for i in range(jobs)]
+
+    def compute():
+        try:
+            with ProcessPoolExecutor(max_workers=jobs, mp_context=mp.get_context("fork")) as ex:
+                return list(ex.map(_hchunk, chunks))
+        except (OSError, RuntimeError):
+            return [_hchunk(c) for c in chunks]
+
+    key = "historyworlds-" + digest(repo, ["fickling.fickle", "fickling.analysis", "fickling.ml"], f"{tier}|{jobs}", [Path(__file__), Path(V.__file__)])
+    parts = cached(key, compute)
+    found: Dict[str, Tuple[int, str]] = {}
+    n = 0
+    for outs in parts:
+        for o in outs:
+            n += 1
+            if o[0] == "unsupported":
+                raise AnalysisError(f"history worlds: cannot interpret {o[1]}")
+            for key_, msg in o[1]:
+                c, m = found.get(key_, (0, msg))
+                found[key_] = (c + 1, m if len(m) <= len(msg) else msg)
+    return found, n
